@@ -37,7 +37,7 @@ func historyMix(r *Run, reps int, f func(h *lcHist)) {
 	var list []hm
 	for _, ch := range []string{"btc", "lbtc"} {
 		for _, ty := range []string{"out", "in"} {
-			for _, v := range []string{"happy", "payfail", "csv", "cancel", "claimfail"} {
+			for _, v := range []string{"happy", "payfail", "csv", "cancel", "claimfail", "openfail", "heightfail"} {
 				list = append(list, hm{ch, ty, v})
 			}
 		}
@@ -62,6 +62,22 @@ func historyMix(r *Run, reps int, f func(h *lcHist)) {
 					if strings.HasSuffix(op, ".preimage") && k < 3 {
 						k++
 						return fmt.Errorf("injected")
+					}
+					return nil
+				}
+			case "openfail":
+				// the maker's wallet cannot fund the opening transaction: the swap is cancelled with an error text
+				h.p.maker().Fault = func(op string) error {
+					if strings.HasSuffix(op, ".open") {
+						return fmt.Errorf("injected: wallet could not fund the transaction")
+					}
+					return nil
+				}
+			case "heightfail":
+				// the taker's chain backend fails when the announcement is processed
+				h.p.taker().Fault = func(op string) error {
+					if strings.HasSuffix(op, ".height") || strings.HasSuffix(op, ".validate") {
+						return fmt.Errorf("injected: backend unavailable")
 					}
 					return nil
 				}
@@ -160,7 +176,15 @@ func c21GenValue(rng *mrand.Rand, typ int) swap.PeerMessage {
 	return &swap.CoopCloseMessage{SwapId: id, Message: str(), Privkey: str()}
 }
 
-func c21Junk(rng *mrand.Rand, seedPayloads [][]byte) (string, []byte, string) {
+func c21Junk(rng *mrand.Rand, seedPayloads [][]byte, liveID string) (string, []byte, string) {
+	if liveID != "" && rng.Intn(8) == 0 {
+		// a well-formed cancel for the live swap, padded beyond 100 KiB: just above the limit, within the first
+		// KiB above it, or far above
+		size := pick(rng, 100*1024+1, 100*1024+1+rng.Intn(1023), 101*1024-1, 101*1024, 150*1024)
+		head := fmt.Sprintf(`{"swap_id":%q,"message":"`, liveID)
+		pad := size - len(head) - 2
+		return "a45f", []byte(head + strings.Repeat("x", pad) + `"}`), "valid-type/oversized-wellformed-cancel"
+	}
 	typeStr := pick(rng, "a455", "a457", "a459", "a45b", "a45d", "a45f", "a461")
 	kind := "valid-type"
 	switch rng.Intn(10) {
@@ -274,7 +298,7 @@ func TestC21(t *testing.T) {
 		r.Seen(fmt.Sprintf("generated/%d", typ))
 	}
 	// (receiving) junk
-	junkN := r.N(1500, 60000)
+	junkN := r.N(1500, 20000)
 	parallelDo(junkN, 12, func(i int) {
 		seed := r.Seed*3571 + int64(i) + 1
 		lr := mrand.New(mrand.NewSource(seed))
@@ -296,7 +320,7 @@ func TestC21(t *testing.T) {
 		}
 		for k := 0; k < 5; k++ {
 			mu.Lock()
-			ts, payload, kind := c21Junk(lr, harvested)
+			ts, payload, kind := c21Junk(lr, harvested, p.id)
 			mu.Unlock()
 			// is it accidentally a proper message? (then it is not junk)
 			if mt, err := messages.PeerswapCustomMessageType(ts); err == nil && len(payload) <= 100*1024 {
